@@ -26,6 +26,7 @@ import (
 	"net/http"
 	"os"
 	"path/filepath"
+	"runtime"
 	"runtime/debug"
 	"strconv"
 	"strings"
@@ -61,6 +62,7 @@ func randBytes(rng *mrand.Rand, n int) []byte {
 // gzip writers are reused: allocating a fresh compressor (about 1 MB) per input
 // dominates the run time under the race detector.
 var gzWriters = map[int]*gzip.Writer{}
+var gzMu sync.Mutex // the concurrent part generates content from several goroutines
 
 func gzipWriter(buf *bytes.Buffer, level int) *gzip.Writer {
 	w := gzWriters[level]
@@ -74,6 +76,8 @@ func gzipWriter(buf *bytes.Buffer, level int) *gzip.Writer {
 }
 
 func gzipBytes(b []byte, level int) []byte {
+	gzMu.Lock()
+	defer gzMu.Unlock()
 	var buf bytes.Buffer
 	w := gzipWriter(&buf, level)
 	_, _ = w.Write(b)
@@ -324,6 +328,206 @@ func childRoundTrip(r *lib.Run) {
 	r.Finish(0)
 }
 
+// ---------------------------------------------------------------- concurrent round trips
+//
+// The statement is about every upload of a client process, not only about one upload
+// at a time: the filer, the mount and `weed upload` push many chunks through
+// operation.UploadData from concurrent goroutines of one process. Here W goroutines
+// of one child upload at the same time (mostly payloads the client compresses
+// itself), keep what they uploaded, and fetch everything back afterwards. The oracle
+// is the same byte equality as in the sequential part; nothing is inferred from
+// timing. To let goroutines interleave inside the upload path rather than only at
+// its network waits, the child runs on few Ps with many goroutines and a goroutine
+// that forces garbage collections (every stop-the-world deschedules the running
+// uploads at arbitrary instructions). Neither changes what correct code returns.
+
+type ccCase struct {
+	Worker int    `json:"worker"`
+	Index  int    `json:"index"`
+	Case   rtCase `json:"case"`
+}
+
+type ccParams struct {
+	Workers   int  `json:"workers"`
+	PerWorker int  `json:"per_worker"`
+	Procs     int  `json:"gomaxprocs"`
+	ForceGC   bool `json:"force_gc"`
+}
+
+func ccDefaults(r *lib.Run) ccParams {
+	p := ccParams{Workers: 24, PerWorker: r.Pick(40, 200), Procs: 3, ForceGC: true}
+	if v, err := strconv.Atoi(os.Getenv("VERIF_C33_CC_WORKERS")); err == nil && v > 0 {
+		p.Workers = v
+	}
+	if v, err := strconv.Atoi(os.Getenv("VERIF_C33_CC_PER_WORKER")); err == nil && v > 0 {
+		p.PerWorker = v
+	}
+	if v, err := strconv.Atoi(os.Getenv("VERIF_C33_CC_PROCS")); err == nil && v > 0 {
+		p.Procs = v
+	}
+	if v := os.Getenv("VERIF_C33_CC_GC"); v != "" {
+		p.ForceGC = v == "1"
+	}
+	return p
+}
+
+// ccCases is a pure function of (seed, params): the cases of one worker.
+func ccCases(r *lib.Run, p ccParams, worker int) []ccCase {
+	rng := r.SubRng(fmt.Sprintf("c33-concurrent-%d", worker))
+	sure := []nameMime{{"a.txt", "text/plain"}, {".svg", ""}, {".json", ""}, {"f", "application/json"}, {"f", "application/xml"}, {".go", ""}, {`q"uo\te.js`, ""}, {"ünï çødé.html", "text/html; charset=utf-8"}}
+	var out []ccCase
+	for i := 0; i < p.PerWorker; i++ {
+		var tc rtCase
+		switch k := rng.Intn(20); {
+		case k < 11: // small payload, compressed for sure by name/mime
+			nm := sure[rng.Intn(len(sure))]
+			tc = rtCase{[]string{"text", "text", "zeros", "random"}[rng.Intn(4)], 200 + rng.Intn(6000), rng.Int63(), nm.Name, nm.Mime, false}
+		case k < 15: // undecided branch: 128-byte sample, then the whole payload
+			tc = rtCase{[]string{"text", "head-text-rest-random", "zeros"}[rng.Intn(3)], 16385 + rng.Intn(50000), rng.Int63(), "", "", false}
+		case k < 17: // larger compressible payload
+			nm := sure[rng.Intn(len(sure))]
+			tc = rtCase{"text", 60000 + rng.Intn(200000), rng.Int63(), nm.Name, nm.Mime, false}
+		case k < 18: // caller-compressed input
+			tc = rtCase{"input-compressed", 1 + rng.Intn(30000), rng.Int63(), "f", "", false}
+		case k < 19: // encrypted (sampling compression only)
+			tc = rtCase{"text", 16385 + rng.Intn(20000), rng.Int63(), "", "", true}
+		default: // stored as is
+			tc = rtCase{"random", 1 + rng.Intn(20000), rng.Int63(), "data.bin", "application/octet-stream", false}
+		}
+		out = append(out, ccCase{worker, i, tc})
+	}
+	return out
+}
+
+type ccStored struct {
+	c     ccCase
+	url   string
+	chunk *filer_pb.FileChunk
+	want  []byte
+	gz    bool
+}
+
+func runConcurrent(r *lib.Run, master string, p ccParams) {
+	prev := runtime.GOMAXPROCS(p.Procs)
+	defer runtime.GOMAXPROCS(prev)
+	stopGC := make(chan struct{})
+	var gcWG sync.WaitGroup
+	if p.ForceGC {
+		gcWG.Add(1)
+		go func() {
+			defer gcWG.Done()
+			n := int64(0)
+			for {
+				select {
+				case <-stopGC:
+					r.Count("forced_gc_cycles", n)
+					return
+				default:
+				}
+				runtime.GC()
+				n++
+				runtime.Gosched()
+			}
+		}()
+	}
+	var wg sync.WaitGroup
+	for w := 0; w < p.Workers; w++ {
+		wg.Add(1)
+		go func(w int) {
+			defer wg.Done()
+			ccWorker(r, master, p, w)
+		}(w)
+	}
+	wg.Wait()
+	close(stopGC)
+	gcWG.Wait()
+}
+
+func ccWorker(r *lib.Run, master string, p ccParams, w int) {
+	var stored []ccStored
+	for _, c := range ccCases(r, p, w) {
+		tc := c.Case
+		data, want, inputCompressed := genContent(tc.Class, tc.Size, tc.Seed)
+		a, err := lib.AssignAt(master, "")
+		if err != nil {
+			r.Inconclusive("concurrent assign: " + err.Error())
+			return
+		}
+		url := "http://" + a.Url + "/" + a.Fid
+		r.Count("uploads_started", 1)
+		res, err := operation.UploadData(url, tc.Name, tc.Cipher, data, inputCompressed, tc.Mime, nil, "")
+		if err != nil || res == nil {
+			r.Count("upload_failed", 1)
+			r.Note("last_upload_error", fmt.Sprintf("%+v: %v", c, err))
+			continue
+		}
+		r.Count("uploads_ok", 1)
+		if res.RetryCount > 0 {
+			r.Count("uploads_ok_after_retry", 1)
+		}
+		if res.Gzip > 0 && !inputCompressed {
+			r.Count("compressed_by_client", 1)
+		}
+		if len(res.CipherKey) > 0 {
+			r.Count("stored_encrypted", 1)
+		}
+		stored = append(stored, ccStored{c, url, res.ToPbFileChunk(a.Fid, 0), want, res.Gzip > 0})
+	}
+	// fetch back everything this worker uploaded (the other workers are still uploading or fetching)
+	for _, st := range stored {
+		tc := st.c.Case
+		n := len(st.want)
+		viol := func(fetch, class, msg string) {
+			r.Violation(lib.Sig{"op": "roundtrip", "load": "concurrent-uploads", "fetch": fetch, "class": class, "input": tc.Class, "cipher": fmt.Sprint(tc.Cipher), "stored_gzipped": fmt.Sprint(st.gz)},
+				map[string]interface{}{"mode": "concurrent", "params": p, "case": st.c, "msg": msg, "want_len": n})
+		}
+		check := func(fetch string, fn func() ([]byte, error)) {
+			r.Eval(1)
+			var got []byte
+			var err error
+			func() {
+				defer func() {
+					if pv := recover(); pv != nil {
+						err = fmt.Errorf("panic in the fetch helper: %v", pv)
+					}
+				}()
+				got, err = fn()
+			}()
+			if err != nil {
+				viol(fetch, "fetch-error", err.Error())
+				return
+			}
+			if !bytes.Equal(got, st.want) {
+				viol(fetch, "bytes-differ", fmt.Sprintf("got %d bytes, want %d, first difference at %d", len(got), n, firstDiff(got, st.want)))
+				return
+			}
+			r.Count("fetch_ok_"+fetch, 1)
+		}
+		check("ReadUrlAsStream-full", func() ([]byte, error) {
+			var got []byte
+			_, err := util.ReadUrlAsStream(st.url, st.chunk.CipherKey, st.chunk.IsCompressed, true, 0, n, func(d []byte) { got = append(got, d...) })
+			return got, err
+		})
+		if st.c.Index%4 == 0 {
+			check("StreamContent-full", func() ([]byte, error) {
+				var out bytes.Buffer
+				err := filer.StreamContent(lookup{st.url}, &out, []*filer_pb.FileChunk{st.chunk}, 0, int64(n))
+				return out.Bytes(), err
+			})
+		}
+		r.Nontrivial(fmt.Sprintf("cc/%d/%d/%s/%d/%d", st.c.Worker, st.c.Index, tc.Class, tc.Size, tc.Seed))
+	}
+}
+
+func childConcurrent(r *lib.Run) {
+	master := os.Getenv("VERIF_C33_MASTER")
+	p := ccDefaults(r)
+	r.Case(map[string]interface{}{"mode": "concurrent", "params": p})
+	r.Note("params", p)
+	runConcurrent(r, master, p)
+	r.Finish(0)
+}
+
 // ---------------------------------------------------------------- decoder fuzzing
 
 type fuzzInput struct {
@@ -361,6 +565,8 @@ func bodyClass(b []byte) string {
 }
 
 func gzipWithHeader(payload []byte, name, comment string, extra []byte) []byte {
+	gzMu.Lock()
+	defer gzMu.Unlock()
 	var buf bytes.Buffer
 	w := gzipWriter(&buf, gzip.DefaultCompression)
 	w.Name, w.Comment, w.Extra = name, comment, extra
@@ -729,6 +935,8 @@ func main() {
 	switch mode {
 	case "roundtrip":
 		childRoundTrip(r)
+	case "concurrent":
+		childConcurrent(r)
 	case "fuzz-decompress":
 		childFuzzDecompress(r)
 	case "fuzz-decrypt":
@@ -739,11 +947,12 @@ func main() {
 
 	if r.Replay != "" {
 		var d struct {
-			Mode     string `json:"mode"`
-			Case     rtCase `json:"case"`
-			Helper   string `json:"helper"`
-			InputHex string `json:"input_hex"`
-			KeyHex   string `json:"key_hex"`
+			Mode     string   `json:"mode"`
+			Case     rtCase   `json:"case"`
+			Helper   string   `json:"helper"`
+			InputHex string   `json:"input_hex"`
+			KeyHex   string   `json:"key_hex"`
+			Params   ccParams `json:"params"`
 		}
 		r.Must(r.LoadReplay(&d), "load replay")
 		if d.Mode == "roundtrip" {
@@ -752,6 +961,16 @@ func main() {
 			c.StartVolume()
 			if c.WaitAssign("", 120) {
 				runRoundTrip(r, c.Master.Url(), d.Case)
+			}
+			c.Stop()
+			r.Finish(0)
+		}
+		if d.Mode == "concurrent" { // the whole concurrent batch is the case (a pure function of seed and params)
+			c := lib.NewCluster(r)
+			c.StartMaster()
+			c.StartVolume()
+			if c.WaitAssign("", 120) {
+				runConcurrent(r, c.Master.Url(), d.Params)
 			}
 			c.Stop()
 			r.Finish(0)
@@ -792,12 +1011,17 @@ func main() {
 	c.StartVolume()
 	if c.WaitAssign("", 120) {
 		r.RunChild("roundtrip", self, []string{"VERIF_C33_MASTER=" + c.Master.Url()}, "roundtrip")
+		// part 1b: the same oracle while many goroutines of one process upload at once
+		r.RunChild("concurrent", self, []string{"VERIF_C33_MASTER=" + c.Master.Url()}, "concurrent")
 	}
 	c.Stop()
 	wg.Wait()
 
 	if r.Counter("roundtrip.uploads_ok") < 50 {
 		r.Inconclusive(fmt.Sprintf("only %d successful uploads in the round-trip part", r.Counter("roundtrip.uploads_ok")))
+	}
+	if r.Counter("concurrent.compressed_by_client") < 100 {
+		r.Inconclusive(fmt.Sprintf("only %d client-compressed uploads in the concurrent round-trip part", r.Counter("concurrent.compressed_by_client")))
 	}
 	if r.Counter("roundtrip.compressed_by_client") == 0 || r.Counter("roundtrip.stored_encrypted") == 0 {
 		r.Inconclusive("client-side compression or encryption was never exercised")
